@@ -28,6 +28,10 @@ class Oth:
     def __repr__(self):
         return 'Oth(%d)' % self.n
 
+    def __bool__(self):
+        # an annotation is any object: Oth(0) is a falsy one (as 0, '', None or an empty tuple would be) and must be kept all the same
+        return self.n != 0
+
 
 def cps(s):
     return ' '.join(str(ord(c)) for c in s)
